@@ -87,6 +87,20 @@ func (p *Program) genFunc(fc *FuncContract) (g *Gen, fr *Frame, ur *UnitResult) 
 		v := fr.symbolic("p$"+prm.Name(), prm.Type())
 		args = append(args, v)
 		fr.assumeTypeFacts(v, prm.Type(), h)
+		// slice-typed fields of a struct passed by pointer are well-formed slices on entry (a fact of
+		// every Go heap; without it "len(b.B) + 4" may wrap in a counterexample)
+		if pt, ok := prm.Type().Underlying().(*types.Pointer); ok && g.isSplitStruct(pt.Elem()) {
+			st := pt.Elem().Underlying().(*types.Struct)
+			for fi := 0; fi < st.NumFields(); fi++ {
+				if _, isSlice := st.Field(fi).Type().Underlying().(*types.Slice); isSlice {
+					a := &Addr{Base: v.T, T: pt.Elem()}
+					lv := g.load(h, a.extend(Sel{Field: fi, StructT: pt.Elem()}))
+					if f := fr.typeFacts(lv, st.Field(fi).Type(), h); f != "true" {
+						fr.assume(implies(fmt.Sprintf("(not (= %s 0))", v.T), f), "slice field of a struct parameter is a well-formed slice")
+					}
+				}
+			}
+		}
 		if i == 0 && fn.Signature.Recv() != nil {
 			if _, isPtr := prm.Type().Underlying().(*types.Pointer); isPtr {
 				fr.assume(fmt.Sprintf("(not (= %s 0))", v.T), "receiver is not nil")
